@@ -12,8 +12,11 @@ are `asU16`. Function by function, branch by branch as in the source:
 * `raw_mode`, `file_type`, `permissions` → `rawMode`, `fileType`, `permissions`
 * `From<FileMode> for u16 / u32`     → `toU16`, `toU32`
 
+* the public variant fields (`FileMode::Regular { permissions }`), `#[derive(PartialEq, Hash)]` → `fieldOf`, `derivedEq`, `hashFeed`
+
 The five mask / type constants come from the generated table `Gen/FileModeConsts.lean`.
-The `reason: &'static str` field of `Invalid` is not modelled (it is message text).
+The `reason: &'static str` field of `Invalid` is not stored in the model's `.invalid raw`: for every value the two `From`
+impls build it is a function of the stored number (`reasonOf`), which is how it enters `derivedEq` / `hashFeed`.
 -/
 namespace RpmVerif.FileMode
 open RpmVerif.Gen
@@ -83,6 +86,45 @@ def isDir : FileMode → Bool | .dir _ => true | _ => false
 def isRegular : FileMode → Bool | .regular _ => true | _ => false
 def isSymlink : FileMode → Bool | .symlink _ => true | _ => false
 
+/-! ## Public variant fields, derived `==` and `Hash` (AUDIT2 a19) -/
+
+/-- the `permissions` field as a `match` on the variant reads it (`FileMode::Regular { permissions } => …`), bypassing
+the getter; `None` for `Invalid` -/
+def fieldOf : FileMode → Option Nat
+  | .dir p | .regular p | .symlink p => some p
+  | .invalid _ => none
+
+/-- the two `reason` texts of `Invalid` -/
+inductive Reason where
+  /-- "unknown file type" (`From<u16>`) -/
+  | unknownFileType
+  /-- "provided integer is out of 16bit bounds" (`From<i32>`) -/
+  | outOf16BitBounds
+  deriving DecidableEq, Repr
+
+/-- the reason stored next to `raw_mode`: `From<u16>` stores `raw_mode as i32`, a number of 0..=65535, with the first text;
+`From<i32>` stores a number outside −32768..=65535 with the second (inside that range it calls `From<u16>`) -/
+def reasonOf (raw : Int) : Reason := if 0 ≤ raw ∧ raw ≤ 65535 then .unknownFileType else .outOf16BitBounds
+
+/-- `#[derive(PartialEq)]`: the same variant and equal fields (`Invalid`: `raw_mode` and `reason`) -/
+def derivedEq : FileMode → FileMode → Bool
+  | .dir p, .dir q => p == q
+  | .regular p, .regular q => p == q
+  | .symlink p, .symlink q => p == q
+  | .invalid r, .invalid s => r == s && decide (reasonOf r = reasonOf s)
+  | _, _ => false
+
+/-- `#[derive(Hash)]`: what is fed to the hasher — the discriminant, then the fields in declaration order. Two values get
+the same hash from any `Hasher` when these sequences agree (and, collisions of the hasher aside, only then). -/
+def hashFeed : FileMode → List Int
+  | .dir p => [0, p]
+  | .regular p => [1, p]
+  | .symlink p => [2, p]
+  | .invalid r => [3, r, if reasonOf r = .unknownFileType then 0 else 1]
+
+/-- `FileMode::from(m.raw_mode())`: the value the 16-bit conversion makes of the mode word of `m` -/
+def reconverted (m : FileMode) : FileMode := fromU16 (rawMode m)
+
 /-! ## What the harness observes of one `FileMode` value -/
 
 /-- `other`: any variant the (`#[non_exhaustive]`) enum may grow later; the model never produces it -/
@@ -91,8 +133,9 @@ inductive Kind where
   deriving DecidableEq, Repr
 
 /-- everything the public API tells about a value: variant, `raw_mode()`, `file_type()`,
-`permissions()`, `u16::from`, `u32::from`, `to_result().is_err()`, and the `raw_mode` field when
-the variant is `Invalid` -/
+`permissions()`, `u16::from`, `u32::from`, `to_result().is_err()`, the `raw_mode` field when
+the variant is `Invalid`; the `permissions` FIELD of the other variants (read by pattern matching, not through the getter),
+whether `FileMode::from(m.raw_mode()) == m`, whether the two hash alike, and which of the two reasons an `Invalid` carries -/
 structure Obs where
   kind : Kind
   raw : Nat
@@ -102,6 +145,10 @@ structure Obs where
   back32 : Nat
   err : Bool
   stored : Option Int
+  field : Option Nat := none
+  rtEq : Bool := true
+  hashEq : Bool := true
+  reason : Option Reason := none
   deriving DecidableEq, Repr
 
 def kindOf : FileMode → Kind
@@ -113,6 +160,8 @@ def storedOf : FileMode → Option Int
 
 def observe (m : FileMode) : Obs :=
   { kind := kindOf m, raw := rawMode m, ftype := fileType m, perm := permissions m,
-    back16 := toU16 m, back32 := toU32 m, err := isErr m, stored := storedOf m }
+    back16 := toU16 m, back32 := toU32 m, err := isErr m, stored := storedOf m,
+    field := fieldOf m, rtEq := derivedEq (reconverted m) m, hashEq := hashFeed (reconverted m) == hashFeed m,
+    reason := (storedOf m).map reasonOf }
 
 end RpmVerif.FileMode
